@@ -46,6 +46,10 @@ def gen_plan(rng, tier, run):
         if rng.random() < 0.5:
             # not only serviceable logs: informational / hidden / non-serviceable ones react to selection options
             p["recipe"]["uh"]["severity"], p["recipe"]["uh"]["action"] = pelgen.gen_class(rng)
+    for spec in plugins.values():
+        # the environment must be stateless here (any difference has to be the tool's own state): no transient
+        # import failures, which make the plugin host itself history dependent
+        spec.pop("transient", None)
     bare = rng.random() < 0.12
     if bare:
         plugins = {}
